@@ -116,9 +116,12 @@ def oracle(case, impl):
             out.append(("codec=%s;kind=roundtrip" % name, "decode(encode(x)) != x for x=%s: %s" % (ls[2][:80], impl[:160])))
         if code != 82 and not all(dns_safe(b) for b in enc):
             out.append(("codec=%s;kind=alphabet" % name, "encode(x) contains a DNS-unsafe byte for x=%s: %s" % (ls[2][:80], parts[0][:160])))
-        num, den = RATIO[code]
-        if den * len(enc) > num * len(data) + den * SLACK:
-            out.append(("codec=%s;kind=bound" % name, "len(encode(x))=%d exceeds ratio*%d+%d" % (len(enc), len(data), SLACK)))
+        if "ratio" in parts:
+            ppm = int(parts[parts.index("ratio") + 1])      # Ratio() as the implementation advertises it now
+        else:
+            ppm = RATIO[code][0] * 1000000 // RATIO[code][1]
+        if 1000000 * len(enc) > (ppm + 1) * len(data) + 1000000 * SLACK:
+            out.append(("codec=%s;kind=bound" % name, "len(encode(x))=%d exceeds Ratio()=%.6f * %d + %d" % (len(enc), ppm / 1e6, len(data), SLACK)))
         return out
     if op == "fromcode":
         b = int(case["line"].split()[1])
